@@ -103,6 +103,18 @@ def run(prop, tier, seed, replay):
             # zero has no weighted centre - creation refuses it loudly, which is not what this property is about)
             wdt = (rng.choice(["f8", "i8"]) if source == "df" else "f8") if has_w else None
             w = nprng.choice([1, 2, 3] if wdt == "i8" else [1, 2, 3, 0.5], n).astype(wdt) if has_w else None
+            # FITS tables store unsigned integers and scaled columns with TZERO / TSCAL: the weight column cycles through the
+            # ways a survey table may hold it (the values a reader of the file sees are what must be stored)
+            wfits = None
+            if source == "fits" and has_w:
+                wfits = ["D", "u2", "i4", "u4", "scaled", "E"][(ci // 6) % 6]
+                if wfits in ("u2", "u4", "i4"):
+                    w = nprng.choice([1, 2, 3, 40000 if wfits != "i4" else 7], n).astype(wfits)
+                elif wfits == "scaled":
+                    w = nprng.choice([1.0, 1.5, 2.0, 3.5], n)
+                elif wfits == "E":
+                    w = w.astype("f4")
+                ck.count(f"fits-weight-column={wfits}")
             z = nprng.uniform(0.01, 2, n) if has_z else None
             cols = {"ra": ra, "dec": dec, "weights": w, "redshifts": z}
             rep = {"n": n, "chunksize": c, "workers": workers, "source": source, "degrees": degrees, "mode": mode,
@@ -146,8 +158,24 @@ def run(prop, tier, seed, replay):
                     else:
                         path = root / f"in{ci}.{ {'fits': 'fits', 'hdf5': 'hdf5', 'parquet': 'pqt'}[source] }"
                         if source == "fits":
-                            fits.BinTableHDU.from_columns([fits.Column(name=k, format="K" if v.dtype.kind == "i" else "D", array=v)
-                                                           for k, v in frame.items()]).writeto(path)
+                            def fits_col(k, v):
+                                if k == "w" and wfits == "u2":
+                                    return fits.Column(name=k, format="I", bzero=2 ** 15, array=v)
+                                if k == "w" and wfits == "u4":
+                                    return fits.Column(name=k, format="J", bzero=2 ** 31, array=v)
+                                if k == "w" and wfits == "i4":
+                                    return fits.Column(name=k, format="J", array=v)
+                                if k == "w" and wfits == "scaled":      # raw int16 values, scaled by the header keywords set below
+                                    return fits.Column(name=k, format="I", array=np.round((v - 1.0) / 0.5).astype("i2"))
+                                if k == "w" and wfits == "E":
+                                    return fits.Column(name=k, format="E", array=v)
+                                return fits.Column(name=k, format="K" if v.dtype.kind == "i" else "D", array=v)
+                            hdu_ = fits.BinTableHDU.from_columns([fits_col(k, v) for k, v in frame.items()])
+                            if wfits == "scaled":
+                                iw_ = list(frame).index("w") + 1
+                                hdu_.header[f"TSCAL{iw_}"] = 0.5
+                                hdu_.header[f"TZERO{iw_}"] = 1.0
+                            hdu_.writeto(path)
                         elif source == "hdf5":
                             with h5py.File(path, "w") as f:
                                 for k, v in frame.items():
